@@ -1,5 +1,6 @@
 import SpoxModel.Model.InlineSeq
 import SpoxModel.Lemmas.InlineHyg
+import SpoxModel.Lemmas.InlineTotal
 /-! Helper lemmas for C08's composition theorem (`inline_compose`): the empty name is never written, top-level
     outputs of emitted node lists, `allSome`, the parts of a successful `toOnnx`. -/
 namespace Inline
@@ -122,6 +123,31 @@ theorem toOnnx_parts (c : Ctx) (g : Graph) (em : Emitted) (h : toOnnx c (normali
       simp only [ne_eq, not_true_eq_false, if_false, Except.ok.injEq] at h
       subst h
       exact ⟨tbl, ntbl, h1, h2, rfl⟩
+
+
+theorem incomp_symm (p q : String) : incomp p q = incomp q p := by
+  unfold incomp; exact Bool.and_comm _ _
+
+/-- the renaming of node `k` in a space free of `k__` leaves the space free of every family `k'__` incomparable
+    with `k__` that it was free of before: all it adds (names and counter keys) lies in its own family -/
+theorem assign_keeps_prefixFree (k k' : String) (hinc : incomp (k' ++ "__") (k ++ "__") = true)
+    (s s' : Space) (hk : s.prefixFree k = true) (hk' : s.prefixFree k' = true)
+    (reqs : List String) (tbl : List (String × String)) (h : assign k reqs s [] = .ok (tbl, s')) :
+    s'.prefixFree k' = true := by
+  obtain ⟨tbl2, s2, h1, hi, _, _⟩ := assign_total k s hk reqs s [] (TInv.init k s)
+  rw [h] at h1
+  simp only [Except.ok.injEq, Prod.mk.injEq] at h1
+  obtain ⟨rfl, rfl⟩ := h1
+  simp only [Space.prefixFree, Bool.and_eq_true, List.all_eq_true] at hk' ⊢
+  constructor
+  · intro x hx
+    rcases hi.used x hx with h0 | ⟨key, _, e⟩
+    · exact hk'.1 x h0
+    · rw [e, incomp_append _ _ _ hinc]; rfl
+  · intro c hc
+    rcases hi.ctr c hc with h0 | ⟨key, _, e⟩
+    · exact hk'.2 c h0
+    · rw [e, incomp_append _ _ _ hinc]; rfl
 
 end
 end Inline
